@@ -4,6 +4,8 @@ import (
 	"encoding/json"
 	"fmt"
 	"io"
+	"os"
+	"path/filepath"
 	"runtime"
 	"runtime/debug"
 	"sort"
@@ -94,6 +96,8 @@ type c05Tx struct {
 	NoLogging  bool `json:"no_logging,omitempty"`
 	CloseTwice bool `json:"close_twice,omitempty"`
 	KeepReader bool `json:"keep_reader,omitempty"`
+	// RmSpill removes the request-body spill file right before Close, so that releasing it fails for real.
+	RmSpill bool `json:"rm_spill,omitempty"`
 }
 
 type c05Case struct {
@@ -152,6 +156,12 @@ func c05GenTx(r gen.R, focus string, probe bool) c05Tx {
 			t.CloseTwice = true
 		case 3:
 			t.KeepReader = true
+		case 4:
+			// a body that spills to disk, a buffered response body, and a spill file that cannot be released
+			t.RmSpill = true
+			t.Body = "a=1&pad=" + strings.Repeat("x", 40) + "&b=attack"
+			t.BodyJSON = false
+			t.RespBody = "predecessor response " + strings.Repeat("p", 30)
 		}
 	}
 	return t
@@ -297,6 +307,15 @@ func c05Run(waf coraza.WAF, t *c05Tx, closeIt bool) (*c05Outcome, types.Transact
 		out.Audit = append(out.Audit, fmt.Sprintf("parts=%s interrupted=%v rules=%v status=%d", a.Parts, a.Interrupted, ids, a.Status))
 	}
 	if closeIt {
+		if t.RmSpill {
+			if ents, err := os.ReadDir(os.TempDir()); err == nil {
+				for _, e := range ents {
+					if strings.HasPrefix(e.Name(), "body") {
+						os.Remove(filepath.Join(os.TempDir(), e.Name()))
+					}
+				}
+			}
+		}
 		fw.Guard(func() {
 			tx.Close()
 			if t.CloseTwice {
@@ -407,6 +426,8 @@ func c05Judge(w *fw.W, c *c05Case) {
 			focus += "+no-logging"
 		case c.Pred[i].StopAfter > 0:
 			focus += "+abandoned"
+		case c.Pred[i].RmSpill:
+			focus += "+spill-file-gone"
 		}
 	}
 	// readers of closed transactions must not yield data: checked after the probe below as well, when the
